@@ -35,6 +35,17 @@ def atoms_of(p):
     return {a for m in p for a in m}
 
 
+_ATOMS = {}
+
+
+def fact_atoms(k, f):
+    a = _ATOMS.get(k)
+    if a is None:
+        a = frozenset(x for m in f for x in m)
+        _ATOMS[k] = a
+    return a
+
+
 def ckey(p):
     return tuple(sorted(p.items()))
 
@@ -122,35 +133,13 @@ class Prover:
         return r
 
     def _entails(self, facts, goal, nonneg):
-        # relevance levels: facts connected to the goal through shared atoms, by distance; a proof found with fewer facts is a proof
-        rel_atoms = set(atoms_of(goal))
-        pool = list(facts)
-        levels = []
-        chosen = []
-        for hop in range(3):
-            rest, new = [], []
-            for f in pool:
-                (new if atoms_of(f) & rel_atoms else rest).append(f)
-            if not new:
-                break
-            for f in new:
-                rel_atoms |= atoms_of(f)
-            chosen = chosen + new
-            pool = rest
-            if len(chosen) > 70:
-                chosen = chosen[:70]
-                levels.append(list(chosen))
-                break
-            levels.append(list(chosen))
-        if not levels:
-            levels = [[]]
+        levels = [list(facts)]
         neg_goal = padd(const(1), goal, -1)         # facts /\ 1 - goal <= 0  (integers)
 
         def with_nonneg(rows):
             monos = {m for p in rows + [goal] for m in p if m != ()}
             return rows + [{m: Fraction(-1)} for m in monos if all(a in nonneg for a in m)]
         # stage 1: linear reasoning over monomials, every monomial of non-negative atoms is non-negative
-        levels = levels[-1:]
         for lv in levels:
             if lp_refute(with_nonneg([dict(f) for f in lv]), neg_goal):
                 return True
@@ -438,12 +427,52 @@ class Analysis:
                     out.append(padd(const(r[0]), A(a), -1))
         return out
 
+    def quick_hi(self, p):
+        """upper bound of a polynomial from the atoms' type ranges alone (interval arithmetic), or None"""
+        hi = Fraction(0)
+        for m, c in p.items():
+            lo_m, hi_m = Fraction(1), Fraction(1)
+            for a in m:
+                r = self.ranges.get(a)
+                if r is None or r[0] < 0:
+                    return None
+                lo_m, hi_m = lo_m * r[0], hi_m * r[1]
+            hi += c * (hi_m if c > 0 else lo_m)
+        return hi
+
     def prove(self, st, goal, extra=()):
-        facts = list(st.facts.values()) + list(extra)
-        at = set(atoms_of(goal))
-        for f in facts:
-            at |= atoms_of(f)
-        return self.prover.entails(facts + self.range_facts(at), goal, self.nonneg)
+        if not goal:
+            return True
+        if not [m for m in goal if m != ()]:
+            return goal.get((), 0) <= 0
+        q = self.quick_hi(goal)
+        if q is not None and q <= 0:
+            return True
+        # relevance: facts connected to the goal through shared atoms (3 hops, at most 70)
+        rel = set(atoms_of(goal))
+        pool = dict(st.facts)
+        for e in extra:
+            pool[ckey(e)] = e
+        chosen = {}
+        for hop in range(3):
+            new = {k: f for k, f in pool.items() if fact_atoms(k, f) & rel}
+            if not new:
+                break
+            for k, f in new.items():
+                rel |= fact_atoms(k, f)
+                chosen[k] = f
+                del pool[k]
+            if len(chosen) > 70:
+                break
+        key = (frozenset(chosen), ckey(goal))
+        r = self.prover.cache.get(key)
+        if r is not None:
+            return r
+        self.prover.queries += 1
+        facts = list(chosen.values())[:90]
+        r = self.prover._entails(facts + self.range_facts(rel), goal, self.nonneg)
+        self.prover.cache[key] = r
+        return r
 
     # -- values
     def local_ty(self, l):
